@@ -33,7 +33,12 @@ def features(v):
                 f.add('prefix-len-not-octet')
         if isinstance(r, dict) and 'label' in r and isinstance(r['label'], list):
             if r['label'] and r['label'][-1] == 0 and 'nlri' in v:
-                f.add('label-0-last')
+                # the known finding needs >= 3 octets after the stack for the decoder to read on (a route distinguisher, or a
+                # prefix longer than 16 bits); a labelled-unicast route with a shorter prefix round-trips on the unchanged tree
+                if fam in ((1, 4), (2, 4)) and p and int(p.split('/')[1]) <= 16:
+                    f.add('label-0-last-short-prefix')
+                else:
+                    f.add('label-0-last')
             if len(r['label']) > 1:
                 f.add('label-stack')
         if isinstance(r, dict) and 'type' in r and 'value' in r:
